@@ -8,7 +8,7 @@ RULE = ("D <accessor> <hex>: every item tree with at most 3 (quick) / 4 (thoroug
         "simple, f16/f32/f64, definite/indefinite array and map, tag}, serialised with every head-width assignment that is uniform per "
         "tree (minimal, 1, 2, 4, 8 bytes) plus random mixed widths, followed by a junk suffix, read through each of the 26 accessors; "
         "grammar-generated deep trees likewise. S= is spec_acc (Spec/Acc.v) on the tree the reference parser finds. DT <type> <hex>: "
-        "typed decoding of re-framed encodings (random head widths, indefinite containers) of registry values; PFX: every strict "
+        "typed decoding of re-framed encodings (random head widths, indefinite containers) of registry values; Type confusion: encodings of values of other registry types and byte/text strings of lengths around 4/16/24 read as each type. PFX: every strict "
         "prefix of every value's encoding must fail with end of input. Non-trivial: the item is longer than one byte.")
 ASSUMPTIONS = ["pointer ranges of borrowed results are checked by the harness for the four borrowed targets (&str, &ByteSlice, &CStr, &Path)",
                "narrower-float-through-wider-accessor values are checked under C12"]
@@ -51,6 +51,19 @@ def generate(tier, rng):
             for _ in range(10 if big else 2):
                 v = tg.rust_order(d, tg.gen_value(d, rng))
                 out.append("PFX %s %s" % (key, tg.show(d, v)))
+    # type confusion: encodings of values of one type read as another type (a non-matching type errors or, where the
+    # shapes coincide, returns the same data-model value — never a different one); byte strings around the fixed lengths
+    pool = []
+    for key in tg.REGISTRY:
+        d = tg.parse_desc(key)
+        for _ in range(3 if big else 1):
+            pool.append(tg.encode(d, tg.rust_order(d, tg.gen_value(d, rng)), rng if rng.random() < 0.3 else None))
+    for n in (0, 1, 3, 4, 5, 15, 16, 17, 23, 24, 25, 32):
+        pool.append(head(2, n) + bytes(rng.getrandbits(8) for _ in range(n)))
+        pool.append(head(3, n) + b"a" * n)
+    for key in tg.REGISTRY + tg.BORROWED:
+        for e in rng.sample(pool, 40 if big else 12) + pool[-24:]:
+            out.append("DT %s %s" % (key, hexs(e)))
     return out
 
 def nontrivial(line, impl):
